@@ -126,9 +126,37 @@ def load_fonts():
     f["hmtx"].metrics["b"] = (adv, lsb + 13)
     _FONTS["tiny:lsb-shift"] = (tinyfont.to_bytes(f), 0)
     _FONTS["tiny:anchor-points"] = (anchor_point_font(), 0)
+    _FONTS["tiny:cff2-private-vsindex"] = (private_vsindex_font(), 0)
     _FONTS["tiny:transformed-components"] = (transformed_component_font(), 0)
     for name, data in t2_operator_fonts():
         _FONTS[name] = (data, 0)
+
+
+def private_vsindex_font():
+    """CFF2 VF whose Private DICT names a default vsindex other than 0 and whose charstrings carry no
+    vsindex operator: item variation data #1 is the font's real data, #0 lists the same regions in the
+    reverse order (so reading blends against #0 swaps the masters)."""
+    import copy
+
+    f = tinyfont.build(tinyfont.pool()["vf-cff2-1axis"])
+    f = tinyfont.reload(f)
+    top = f["CFF2"].cff.topDictIndex[0]
+    vs = top.VarStore.otVarStore
+    assert len(vs.VarData) == 1 and len(vs.VarData[0].VarRegionIndex) >= 2
+    for g in f.getGlyphOrder():
+        top.CharStrings[g].decompile()
+        assert "vsindex" not in top.CharStrings[g].program
+    real = vs.VarData[0]
+    decoy = copy.deepcopy(real)
+    decoy.VarRegionIndex = list(reversed(real.VarRegionIndex))
+    vs.VarData = [decoy, real]
+    vs.VarDataCount = 2
+    for fd in top.FDArray:
+        fd.Private.vsindex = 1
+    data = tinyfont.to_bytes(f)
+    back = TTFont(io.BytesIO(data))
+    assert back["CFF2"].cff.topDictIndex[0].FDArray[0].Private.vsindex == 1
+    return data
 
 
 def anchor_point_font():
